@@ -66,15 +66,17 @@ FIELDS = {
 LENGTH_GAPS = {"D": (2,)}
 
 
-def make_cid_text(fkeys, ncheck, fmt, allowed):
+def make_cid_text(fkeys, ncheck, fmt, allowed, late_allowed=False):
     lines = ["d,format,%s" % fmt]
-    if allowed:
+    if allowed and not late_allowed:
         lines.append("d,allowed characters,%s" % allowed)
     for i, k in enumerate(fkeys):
         empty, length, _, _ = FIELDS[k]
         if fmt == "fixed":
             length = "2"
         lines.append("f,f%d,,%s,%s,Rec," % (i, "X" if empty else "", '"%s"' % length if "," in length else length))
+    if allowed and late_allowed:
+        lines.append("d,allowed characters,%s" % allowed)  # a data format row may follow the field rows
     for k in range(ncheck):
         lines.append("c,%s,Rec,whatever" % CHECK_NAMES[k])
     return "\n".join(lines) + "\n"
@@ -178,7 +180,10 @@ def same_log(a, b):
 
 
 def make(fkeys, ncheck, nrows, fmt, allowed_text, allowed, mode, runs, ragged=None):
-    text = make_cid_text(fkeys, ncheck, fmt, allowed_text)
+    late = bool(allowed_text) and allowed_text.startswith("late:")
+    if late:
+        allowed_text = allowed_text[5:]
+    text = make_cid_text(fkeys, ncheck, fmt, allowed_text, late)
     n = len(fkeys)
     widths = ragged or [n] * nrows
 
@@ -233,6 +238,17 @@ def make(fkeys, ncheck, nrows, fmt, allowed_text, allowed, mode, runs, ragged=No
                     one, exp_raise = predict(fkeys, ncheck, fmt, allowed, header, lim, rows, veto, endfail, "yield")
                     body = [e for e in one if e[0] in ("reset", "value", "row")]
                     exp = body + body + [e for e in one if e[0] in ("end", "cleanup")]
+                elif mode == "with-raise":
+                    # the validator used as a context manager and left by the first rejection: the checks are still
+                    # asked for their end-of-data verdict once and cleaned up (only the verdict's error is dropped)
+                    try:
+                        with validio.Reader(cid, rows, on_error="raise", validate_until=lim) as reader:
+                            for _ in reader.rows():
+                                pass
+                    except errors.DataError:
+                        pass
+                    exp, exp_raise = predict(fkeys, ncheck, fmt, allowed, header, lim, rows, veto, endfail, "raise")
+                    close_raised = exp_raise
                 else:
                     reader = validio.Reader(cid, rows, on_error=mode, validate_until=lim)
                     try:
@@ -377,6 +393,8 @@ def build(tier, seed):
         (("A",), 2, 2, "delimited", None, None, "reader-twice", 1, None),
         (("A",), 1, 3, "delimited", None, None, "continue", 1, None),
         (("D", "B"), 1, 2, "delimited", None, None, "yield", 1, None),
+        (("A", "B"), 1, 1, "delimited", "late:97...122", (97, 122), "yield", 1, None),
+        (("A", "B"), 2, 2, "delimited", None, None, "with-raise", 1, None),
     ]
     if tier == "thorough":
         conf += [
